@@ -1,17 +1,22 @@
 """C16 - a failing FFI co-process is contained by the VM (DESIGN §4 C16).
 
-`nano_vm --isolate-ffi` (plain and asan flavor) runs a program with four extern calls against
+`nano_vm --isolate-ffi` (plain and asan flavor) runs a program with extern calls against
 tools/fake_nano_cop.py, installed as `nano_cop` first on PATH (vm_ffi.c uses execlp("nano_cop")).  The
 stand-in speaks the real protocol and injects exactly one fault ($NLVERIF_COP_FAULT=<step>:<kind>:<k>).
 
 Oracle per run (the property's outcome set):
   * the VM is not terminated by a signal and prints no sanitizer report;
   * either exit 0 with the complete expected output ("recovered": relaunch or in-process fallback), or exit 1
-    with "FFI call failed" on stderr ("error reported");
+    with the runtime error "FFI call failed" on stderr ("error reported");
   * everything the program printed before the faulted call is intact (stdout starts with that prefix);
   * no process carrying the per-case tag in its environment is alive 5 s after the VM exited.
 Controls (no fault; also fragmented writes and a peer that ignores SHUTDOWN/EOF) must end with exit 0 and the
-complete output, served by the stand-in.
+complete output.
+
+Programs: A = four libc calls with int results (strlen, labs, toupper, atoi), VM work between the calls so that
+a peer that died after a reply has been reaped when the next call starts (relaunch path).  B = two calls of an
+extern that only the stand-in knows, answering 20 000 / 9 000 byte strings: replies larger than the VM's
+8 KiB stack buffer take its malloc path, whose error exits are watched by ASan.
 """
 import json
 import os
@@ -29,16 +34,47 @@ LEVEL = "fault_enumeration"
 VERIF = os.path.dirname(os.path.dirname(os.path.dirname(os.path.abspath(__file__))))
 FAKE = os.path.join(VERIF, "tools", "fake_nano_cop.py")
 
-# ---- test program ------------------------------------------------------------------------------------
-# (function, argument source text, python value of the argument, expected result)
-CALLS = [("strlen", '"alpha-bravo"', "alpha-bravo", 11),
-         ("labs", "-4242", -4242, 4242),
-         ("toupper", "113", 113, 81),
-         ("atoi", '"90817"', "90817", 90817)]
-SPIN = 20000          # VM work between two calls (a few ms): a co-process that died after a reply is reaped
-SPIN_VALUE = 59997    # sum(i % 7 for i in range(20000))
 
-PROGRAM = """extern fn strlen(s: string) -> int
+def enc(v):
+    """Wire encoding of a value (cop_protocol.h): INT 0x01 i64, STRING 0x05 u32 len + bytes."""
+    if isinstance(v, str):
+        b = v.encode()
+        return b"\x05" + struct.pack("<I", len(b)) + b
+    return b"\x01" + struct.pack("<q", v)
+
+
+# ---- test programs -----------------------------------------------------------------------------------
+class Prog:
+    def __init__(self, name, source, lines, before, table, reference):
+        self.name = name
+        self.source = source
+        self.expected = "\n".join(lines) + "\n"
+        self.before = before            # before[j-1] = the line printed immediately before extern call j
+        self.ncalls = len(before)
+        self.table = table              # {hex(serialized args): hex(serialized result)}
+        self.reference = reference      # the program also runs without isolation (real libc functions)
+        self.nvm = None
+
+    def prefix(self, j):
+        """stdout up to and including the 'before' line of call j (1-based)."""
+        m = self.before[j - 1] + "\n"
+        return self.expected[: self.expected.index(m) + len(m)]
+
+
+SPIN = 20000          # VM work between two calls (a few ms)
+SPIN_VALUE = 59997    # sum(i % 7 for i in range(20000))
+CALLS_A = [("strlen", '"alpha-bravo"', "alpha-bravo", 11),
+           ("labs", "-4242", -4242, 4242),
+           ("toupper", "113", 113, 81),
+           ("atoi", '"90817"', "90817", 90817)]
+
+
+def _prog_a():
+    body = "".join(
+        '    (println "C16-B%d-before-%s")\n    unsafe { set r (%s %s) }\n'
+        '    (println (+ "C16-A%d-%s=" (int_to_string r)))\n    (println (+ "C16-W%d=" (int_to_string (spin %d))))\n'
+        % (i + 1, fn, fn, arg, i + 1, fn, i + 1, SPIN) for i, (fn, arg, _, _) in enumerate(CALLS_A))
+    src = """extern fn strlen(s: string) -> int
 extern fn labs(x: int) -> int
 extern fn toupper(c: int) -> int
 extern fn atoi(s: string) -> int
@@ -47,7 +83,7 @@ fn spin(n: int) -> int {
     let mut i: int = 0
     let mut acc: int = 0
     while (< i n) {
-        set acc (+ acc (%% i 7))
+        set acc (+ acc (% i 7))
         set i (+ i 1)
     }
     return acc
@@ -57,65 +93,90 @@ shadow spin { assert (== (spin 0) 0) }
 fn main() -> int {
     (println "C16-START")
     let mut r: int = 0
-%s    (println "C16-END")
+""" + body + """    (println "C16-END")
     return 0
 }
 shadow main { assert true }
-""" % "".join(
-    '    (println "C16-B%d-before-%s")\n    unsafe { set r (%s %s) }\n'
-    '    (println (+ "C16-A%d-%s=" (int_to_string r)))\n    (println (+ "C16-W%d=" (int_to_string (spin %d))))\n'
-    % (i + 1, fn, fn, arg, i + 1, fn, i + 1, SPIN) for i, (fn, arg, _, _) in enumerate(CALLS))
+"""
+    lines = ["C16-START"]
+    before = []
+    for i, (fn, _, _, res) in enumerate(CALLS_A):
+        before.append("C16-B%d-before-%s" % (i + 1, fn))
+        lines += [before[-1], "C16-A%d-%s=%d" % (i + 1, fn, res), "C16-W%d=%d" % (i + 1, SPIN_VALUE)]
+    lines.append("C16-END")
+    return Prog("A", src, lines, before, {enc(a).hex(): enc(r).hex() for _, _, a, r in CALLS_A}, True)
 
 
-def expected_lines():
-    out = ["C16-START"]
-    for i, (fn, _, _, res) in enumerate(CALLS):
-        out += ["C16-B%d-before-%s" % (i + 1, fn), "C16-A%d-%s=%d" % (i + 1, fn, res), "C16-W%d=%d" % (i + 1, SPIN_VALUE)]
-    return out + ["C16-END"]
+BIG = [20000, 9000]
 
 
-EXPECTED = "\n".join(expected_lines()) + "\n"
+def _big_string(n):
+    return "".join(chr(97 + (i * 7 + n) % 26) for i in range(n))
 
 
-def prefix_before_call(j):
-    """stdout up to and including the 'before' line of call j (1-based)."""
-    lines = expected_lines()
-    return "\n".join(lines[: 1 + 3 * (j - 1) + 1]) + "\n"
+def _prog_b():
+    body = "".join(
+        '    (println "C16B-B%d-before")\n    unsafe { set s (nlv_c16_big %d) }\n'
+        '    (println (+ "C16B-A%d-len=" (int_to_string (str_length s))))\n'
+        '    (println (+ "C16B-W%d=" (int_to_string (spin %d))))\n' % (i + 1, n, i + 1, i + 1, SPIN) for i, n in enumerate(BIG))
+    src = """extern fn nlv_c16_big(n: int) -> string
+
+fn spin(n: int) -> int {
+    let mut i: int = 0
+    let mut acc: int = 0
+    while (< i n) {
+        set acc (+ acc (% i 7))
+        set i (+ i 1)
+    }
+    return acc
+}
+shadow spin { assert (== (spin 0) 0) }
+
+fn main() -> int {
+    (println "C16B-START")
+    let mut s: string = ""
+""" + body + """    (println "C16B-END")
+    return 0
+}
+shadow main { assert true }
+"""
+    lines = ["C16B-START"]
+    before = []
+    for i, n in enumerate(BIG):
+        before.append("C16B-B%d-before" % (i + 1))
+        lines += [before[-1], "C16B-A%d-len=%d" % (i + 1, n), "C16B-W%d=%d" % (i + 1, SPIN_VALUE)]
+    lines.append("C16B-END")
+    return Prog("B", src, lines, before, {enc(n).hex(): enc(_big_string(n)).hex() for n in BIG}, False)
 
 
-def enc(v):
-    if isinstance(v, str):
-        b = v.encode()
-        return b"\x05" + struct.pack("<I", len(b)) + b
-    return b"\x01" + struct.pack("<q", v)
-
-
-def answer_table():
-    return {enc(a).hex(): enc(r).hex() for _, _, a, r in CALLS}
-
+PROG_A = _prog_a()
+PROG_B = _prog_b()
+PROGS = {"A": PROG_A, "B": PROG_B}
 
 # ---- scenario space ----------------------------------------------------------------------------------
 PROCESS_KINDS = ["exit0", "exit1", "kill", "close_stdin", "close_stdout", "close_both"]
+TRUNCATION_KINDS = ["short_header", "short_payload"]
 MESSAGE_KINDS = ["short_header", "wrong_version", "wrong_type", "len_over_max", "short_payload",
                  "bad_tag", "array_huge", "string_over"]
 KINDS = PROCESS_KINDS + MESSAGE_KINDS
-K = 3   # the program makes 4 calls, so a fault at the k-th exchange (k <= 3) is always followed by another call
+K = 3   # program A makes 4 calls, so a fault at the k-th exchange (k <= 3) is always followed by another call
 
 
 def scenarios(jitters):
-    """The finite scenario space (per flavor).  Each: dict(family, step, kind, k, second, stubborn, chunk, jitter)."""
+    """The finite scenario space (per flavor)."""
     S = []
 
-    def add(family, step="none", kind="none", k=0, second="healthy", stubborn=False, chunk=0, jitter=None):
+    def add(family, step="none", kind="none", k=0, second="healthy", stubborn=False, chunk=0, jitter=None, prog="A"):
         S.append(dict(family=family, step=step, kind=kind, k=k, second=second, stubborn=stubborn,
-                      chunk=chunk, jitter=jitter))
+                      chunk=chunk, jitter=jitter, prog=prog))
 
     for j in jitters:
         # controls: no fault
-        add("control", jitter=j)
-        add("control", chunk=1, jitter=j)
-        add("control", chunk=3, jitter=j)
-        add("control", stubborn=True, jitter=j)
+        for prog in ("A", "B"):
+            add("control", jitter=j, prog=prog)
+            add("control", chunk=1 if prog == "A" else 4093, jitter=j, prog=prog)
+            add("control", chunk=3 if prog == "A" else 977, jitter=j, prog=prog)
+            add("control", stubborn=True, jitter=j, prog=prog)
         # the product steps x kinds
         for kind in KINDS:
             for k in range(1, K + 1):
@@ -141,6 +202,16 @@ def scenarios(jitters):
                               ("on_req", "string_over", 1), ("pre_reply", "array_huge", 3),
                               ("mid_reply", "wrong_version", 2)):
             add("stubborn", step, kind, k, stubborn=True, jitter=j)
+        # big replies (program B, malloc'ed receive buffer).  mid_reply only with kinds after which the peer
+        # is gone or has closed stdout: half of a 20 kB payload followed by a small complete message and a
+        # peer that keeps serving would leave the VM waiting for the other half for ever (alive-and-silent).
+        for kind in KINDS:
+            add("big", "on_req", kind, 1, jitter=j, prog="B")
+            add("big", "pre_reply", kind, 1, jitter=j, prog="B")
+        for kind in PROCESS_KINDS + TRUNCATION_KINDS:
+            add("big", "mid_reply", kind, 1, jitter=j, prog="B")
+        for kind in ("exit1", "close_stdout", "short_payload"):
+            add("big", "mid_reply", kind, 2, jitter=j, prog="B")
     return S
 
 
@@ -194,8 +265,9 @@ def tagged_pids(tag):
 GRACE = 5.0
 
 
-def run_case(flavor, nvm, bindir, casedir, sc, tag, table, wall=40):
+def run_case(flavor, bindir, casedir, sc, tag, tables, wall=40):
     """One nano_vm --isolate-ffi run against the stand-in.  Returns an observation dict."""
+    prog = PROGS[sc["prog"]]
     os.makedirs(casedir, exist_ok=True)
     logp = os.path.join(casedir, "cop.log")
     for n in ("cop.log", "stdout", "stderr"):
@@ -204,7 +276,7 @@ def run_case(flavor, nvm, bindir, casedir, sc, tag, table, wall=40):
         except OSError:
             pass
     env = {"PATH": "%s:/usr/bin:/bin" % bindir, "HOME": casedir, "LC_ALL": "C",
-           "NLVERIF_COP_TAG": tag, "NLVERIF_COP_LOG": logp, "NLVERIF_COP_TABLE": table,
+           "NLVERIF_COP_TAG": tag, "NLVERIF_COP_LOG": logp, "NLVERIF_COP_TABLE": tables[prog.name],
            "NLVERIF_COP_FAULT": "none" if sc["step"] == "none" else cell(sc),
            "NLVERIF_COP_SECOND": sc["second"]}
     if sc["stubborn"]:
@@ -215,9 +287,10 @@ def run_case(flavor, nvm, bindir, casedir, sc, tag, table, wall=40):
         env["NLVERIF_COP_JITTER"] = str(sc["jitter"])
     if flavor.name == "asan":
         env.update(ASAN_ENV)
-    cmd = [flavor.nano_vm, "--isolate-ffi", nvm]
+    cmd = [flavor.nano_vm, "--isolate-ffi", prog.nvm]
     t0 = time.time()
     with open(os.path.join(casedir, "stdout"), "wb") as fo, open(os.path.join(casedir, "stderr"), "wb") as fe:
+        # stdout/stderr are files, not pipes: the stand-in inherits stderr, a pipe would stay open with it
         p = subprocess.Popen(cmd, cwd=casedir, env=env, stdin=subprocess.DEVNULL, stdout=fo, stderr=fe,
                              preexec_fn=_preexec(20))
     timeout = False
@@ -231,8 +304,8 @@ def run_case(flavor, nvm, bindir, casedir, sc, tag, table, wall=40):
             pass
         p.wait()
     t_exit = time.time()
-    # orphan scan: anything with the tag still alive?  allow GRACE seconds (stand-in honours EOF at once,
-    # the close kinds linger 300 ms), then it is an orphan that only the VM could have removed.
+    # orphan scan: anything with the tag still alive?  allow GRACE seconds (the stand-in honours EOF at once,
+    # the close kinds linger 300 ms), after that it is a leftover that only the VM could have removed.
     orphans = []
     scans = 0
     if not timeout:
@@ -265,6 +338,7 @@ def run_case(flavor, nvm, bindir, casedir, sc, tag, table, wall=40):
 def classify(ob):
     """-> (outcome class, violation tag or None, explanation)."""
     sc = ob["sc"]
+    prog = PROGS[sc["prog"]]
     if ob["timeout"]:
         return "timeout", None, "watchdog"
     m = SAN_RE.search(ob["err"])
@@ -279,13 +353,13 @@ def classify(ob):
         return "signal:" + name, "signal:" + name, "nano_vm terminated by %s" % name
     faulted = sc["step"] != "none"
     if ob["rc"] == 0:
-        if ob["out"] == EXPECTED:
+        if ob["out"] == prog.expected:
             if not faulted or not ob["fired"]:
                 return "ok", None, ""
-            if ob["served"] < len(CALLS) and ob["instances"] <= 1:
+            if ob["served"] < prog.ncalls and ob["instances"] <= 1:
                 return "recovered:in-process", None, ""
             if ob["instances"] > 1:
-                return ("recovered:relaunch+in-process" if ob["served"] < len(CALLS) else "recovered:relaunch"), None, ""
+                return ("recovered:relaunch+in-process" if ob["served"] < prog.ncalls else "recovered:relaunch"), None, ""
             return "recovered:unaffected", None, ""
         return "exit0-output-wrong", "unreported", "exit 0 but the output is not the complete expected output"
     if ob["rc"] == 1:
@@ -293,7 +367,7 @@ def classify(ob):
             return "control-failed", "control", "no fault injected, exit 1"
         if "FFI call failed" not in ob["err"] or "Runtime error" not in ob["err"]:
             return "exit1-silent", "exit1-silent", "exit 1 without the runtime error report"
-        if not ob["out"].startswith(prefix_before_call(faulted_call(sc))):
+        if not ob["out"].startswith(prog.prefix(faulted_call(sc))):
             return "prefix-lost", "prefix-lost", "output before faulted call %d missing or altered" % faulted_call(sc)
         return "error-reported", None, ""
     return "exit:%s" % ob["rc"], "exit=%s" % ob["rc"], "exit status outside {0,1}"
@@ -304,37 +378,40 @@ def describe(ob, why):
     e = ob["env"]
     envs = " ".join("%s=%s" % (k, e[k]) for k in sorted(e) if k.startswith("NLVERIF_COP_") and k not in
                     ("NLVERIF_COP_TAG", "NLVERIF_COP_LOG", "NLVERIF_COP_TABLE"))
-    return ("%s\nscenario: family=%s fault=%s second=%s stubborn=%s chunk=%s jitter=%s flavor=%s\n"
-            "nano_vm: rc=%s signal=%s; stand-in instances=%d fault fired=%d replies=%d orphans=%s\n"
-            "replay: %s PATH=<dir with nano_cop -> tools/fake_nano_cop.py>:$PATH nano_vm --isolate-ffi prog.nvm\n"
-            "stdout:\n%s\nstderr:\n%s\nstand-in log:\n%s" % (
-                why, sc["family"], cell(sc), sc["second"], sc["stubborn"], sc["chunk"], sc["jitter"], ob["flavor"],
-                ob["rc"], ob["sig"], ob["instances"], ob["fired"], ob["served"], ob["orphans"], envs,
+    return ("%s\nscenario: program=%s family=%s fault=%s second=%s stubborn=%s chunk=%s jitter=%s flavor=%s\n"
+            "nano_vm: rc=%s signal=%s; stand-in instances=%d fault fired=%d replies=%d leftover pids=%s\n"
+            "replay: see cmd.txt (%s)\n"
+            "stdout (tail):\n%s\nstderr (tail):\n%s\nstand-in log (tail):\n%s" % (
+                why, sc["prog"], sc["family"], cell(sc), sc["second"], sc["stubborn"], sc["chunk"], sc["jitter"],
+                ob["flavor"], ob["rc"], ob["sig"], ob["instances"], ob["fired"], ob["served"], ob["orphans"], envs,
                 ob["out"][-700:], ob["err"][-1500:], ob["log"][-1500:]))
 
 
 def run(ctx):
     flavors = [build.get("plain"), build.get("asan")]
     rng = ctx.rng("jitter")
-    jitters = [None] if ctx.quick() else [None] + [rng.randrange(1, 10 ** 6) for _ in range(3)]
+    jitters = [None] + [rng.randrange(1, 10 ** 6) for _ in range(ctx.n(1, 16))]
     with Scratch("c16") as sc:
-        src = sc.file("prog.nano", PROGRAM)
-        nvm = os.path.join(sc.path, "prog.nvm")
-        r = sh([flavors[0].nano_virt, src, "--emit-nvm", "-o", nvm], cpu=30)
-        ctx.require(r.rc == 0 and os.path.exists(nvm), "test program does not compile: %s" % r.brief())
-        # the program itself, without isolation, prints the expected text on both flavors
-        for fl in flavors:
-            r = sh([fl.nano_vm, nvm], cpu=20, san=(fl.name == "asan"))
-            ctx.require(r.rc == 0 and r.text() == EXPECTED, "in-process reference run differs (%s): %s" % (fl.name, r.brief()))
+        for prog in PROGS.values():
+            src = sc.file("prog%s.nano" % prog.name, prog.source)
+            prog.nvm = os.path.join(sc.path, "prog%s.nvm" % prog.name)
+            r = sh([flavors[0].nano_virt, src, "--emit-nvm", "-o", prog.nvm], cpu=30)
+            ctx.require(r.rc == 0 and os.path.exists(prog.nvm), "test program %s does not compile: %s" % (prog.name, r.brief()))
+            if prog.reference:
+                # the program itself, without isolation, prints the expected text on both flavors
+                for fl in flavors:
+                    r = sh([fl.nano_vm, prog.nvm], cpu=20, san=(fl.name == "asan"))
+                    ctx.require(r.rc == 0 and r.text() == prog.expected,
+                                "in-process reference run differs (%s): %s" % (fl.name, r.brief()))
         bindir = sc.sub("bin")
         os.symlink(FAKE, os.path.join(bindir, "nano_cop"))
         ctx.require(os.access(FAKE, os.X_OK), "tools/fake_nano_cop.py is not executable")
-        table = sc.file("table.json", json.dumps(answer_table()))
+        tables = {p.name: sc.file("table%s.json" % p.name, json.dumps(p.table)) for p in PROGS.values()}
         runid = "%d-%d" % (os.getpid(), int(time.time()))
 
         jobs = []
         for fl in flavors:
-            for i, s in enumerate(scenarios(jitters)):
+            for s in scenarios(jitters):
                 jobs.append((fl, s, len(jobs)))
         ctx.rng("order").shuffle(jobs)
 
@@ -342,11 +419,10 @@ def run(ctx):
             fl, s, idx = job
             tag = "c16-%s-%d" % (runid, idx)
             cdir = os.path.join(sc.path, "cases", "%05d" % idx)
-            ob = run_case(fl, nvm, bindir, cdir, s, tag, table)
+            ob = run_case(fl, bindir, cdir, s, tag, tables)
             if ob["timeout"]:
-                ob2 = run_case(fl, nvm, bindir, cdir, s, tag + "r", table)
-                ob2["retried"] = True
-                return ob2
+                ob = run_case(fl, bindir, cdir, s, tag + "r", tables)
+                ob["retried"] = True
             return ob
 
         obs = pmap(one, jobs)
@@ -361,10 +437,13 @@ def run(ctx):
         orphan_scans = 0
         timeouts = []
         control_bad = []
+        control_fallback = []
+        controls_ok = 0
         samples = []
-        nvm_bytes = open(nvm, "rb").read()
+        nvm_bytes = {p.name: open(p.nvm, "rb").read() for p in PROGS.values()}
         for ob in obs:
             s = ob["sc"]
+            prog = PROGS[s["prog"]]
             cls, vtag, why = classify(ob)
             orphan_scans += ob["scans"]
             hk = "%s/%s" % (s["step"], s["kind"])
@@ -372,73 +451,94 @@ def run(ctx):
             hist[hk][cls] = hist[hk].get(cls, 0) + 1
             classes[cls] = classes.get(cls, 0) + 1
             if cls == "timeout":
-                timeouts.append("%s %s" % (cell(s), ob["flavor"]))
+                timeouts.append("%s prog=%s %s" % (cell(s), s["prog"], ob["flavor"]))
                 continue
             faulted = s["step"] != "none"
             if faulted:
                 faulted_n += 1
                 if ob["fired"]:
-                    fired_cells.add((s["step"], s["kind"], s["k"], s["second"], s["stubborn"], ob["flavor"]))
+                    fired_cells.add((s["prog"], s["step"], s["kind"], s["k"], ob["flavor"]))
                 else:
-                    not_fired.append("%s %s" % (cell(s), ob["flavor"]))
+                    not_fired.append("%s prog=%s %s" % (cell(s), s["prog"], ob["flavor"]))
                 if ob["instances"] > 1:
                     relaunch_runs += 1
                     relaunch_instances += ob["instances"] - 1
-            files = {"prog.nano": PROGRAM, "prog.nvm": nvm_bytes, "table.json": json.dumps(answer_table()),
+            files = {"prog.nano": prog.source, "prog.nvm": nvm_bytes[prog.name], "table.json": json.dumps(prog.table),
+                     "expected_stdout.txt": prog.expected,
                      "stdout.txt": ob["out"], "stderr.txt": ob["err"], "cop.log": ob["log"],
-                     "cmd.txt": "mkdir -p bin && ln -sf %s bin/nano_cop\nenv %s PATH=$PWD/bin:/usr/bin:/bin %s --isolate-ffi prog.nvm\n# flavor %s\n" % (
-                         FAKE, " ".join("%s=%s" % (k, v) for k, v in sorted(ob["env"].items())
-                                        if k.startswith("NLVERIF_COP_") and k not in ("NLVERIF_COP_LOG", "NLVERIF_COP_TABLE"))
-                         + " NLVERIF_COP_TABLE=$PWD/table.json NLVERIF_COP_LOG=$PWD/cop.log",
-                         "nano_vm", ob["flavor"])}
+                     "cmd.txt": "# in this directory; nano_vm of the %s flavor (python3 -m nlv.build %s prints its root)\n"
+                                "mkdir -p bin && ln -sf %s bin/nano_cop\nenv -i %s PATH=$PWD/bin:/usr/bin:/bin nano_vm --isolate-ffi prog.nvm\n" % (
+                         ob["flavor"], ob["flavor"], FAKE,
+                         " ".join("%s=%s" % (k, v) for k, v in sorted(ob["env"].items())
+                                  if k.startswith("NLVERIF_COP_") and k not in ("NLVERIF_COP_LOG", "NLVERIF_COP_TABLE", "NLVERIF_COP_TAG"))
+                         + " NLVERIF_COP_TABLE=$PWD/table.json NLVERIF_COP_LOG=$PWD/cop.replay.log")}
             if not faulted:
-                # controls.  The plain control failing means the harness cannot be trusted (inconclusive);
-                # a fragmented / stubborn control failing while the plain one passes is the VM's doing.
-                good = (cls == "ok" and ob["instances"] == 1 and ob["served"] == len(CALLS))
-                if not good:
-                    if s["chunk"] == 0 and not s["stubborn"] and not vtag in ("sanitizer",) and not ob["sig"]:
-                        control_bad.append("%s: %s rc=%s instances=%d served=%d err=%s" % (
-                            ob["flavor"], cls, ob["rc"], ob["instances"], ob["served"], ob["err"][-300:]))
-                    else:
-                        ctx.violation("control|chunk=%d|stubborn=%d|%s" % (s["chunk"], s["stubborn"], cls),
-                                      describe(ob, "a healthy co-process (no fault injected) was not served normally: " + (why or cls)), files)
+                # controls.  The sanity control (program A, single-write replies, no jitter) failing means the harness
+                # cannot be trusted: inconclusive.  Any other control (fragmented or jittered writes, SHUTDOWN/EOF ignored,
+                # 20 kB replies that arrive in pieces) failing while the sanity control passes is the VM's doing.
+                plain_control = (s["chunk"] == 0 and not s["stubborn"] and s["prog"] == "A" and s["jitter"] is None)
+                by_standin = (ob["instances"] == 1 and ob["served"] == prog.ncalls)
+                if cls == "ok" and by_standin:
+                    controls_ok += 1
+                elif cls == "ok":
+                    # exit 0 and complete output, but (partly) not through the stand-in: inside the property's
+                    # outcome set ("recovered"); for the plain control it means PATH substitution did not work
+                    control_fallback.append("%s prog=%s chunk=%d stubborn=%d instances=%d served=%d" % (
+                        ob["flavor"], s["prog"], s["chunk"], s["stubborn"], ob["instances"], ob["served"]))
+                    if plain_control:
+                        control_bad.append("%s prog=%s: not served by the stand-in (instances=%d served=%d)" % (
+                            ob["flavor"], s["prog"], ob["instances"], ob["served"]))
+                elif plain_control and vtag == "control":
+                    control_bad.append("%s prog=%s: %s rc=%s instances=%d served=%d err=%s" % (
+                        ob["flavor"], s["prog"], cls, ob["rc"], ob["instances"], ob["served"], ob["err"][-300:]))
+                else:
+                    ctx.violation("control|prog=%s|chunk=%d|stubborn=%d|%s" % (s["prog"], s["chunk"], s["stubborn"], cls),
+                                  describe(ob, "a healthy co-process (no fault injected; %s) and yet: %s" % (
+                                      "plain" if plain_control else "fragmented writes" if s["chunk"] else
+                                      "ignores SHUTDOWN/EOF" if s["stubborn"] else "large replies / jittered writes",
+                                      why or cls)), files)
             elif vtag:
+                big = "|big" if s["prog"] == "B" else ""
                 if vtag == "signal:SIGPIPE":
                     key = "sigpipe|step=%s|kind=%s" % (s["step"], s["kind"])
                 elif vtag == "sanitizer":
-                    key = "sanitizer|%s|step=%s|kind=%s" % (why[:80], s["step"], s["kind"])
+                    key = "sanitizer|%s|step=%s|kind=%s%s" % (why[:80], s["step"], s["kind"], big)
                 else:
-                    key = "%s|step=%s|kind=%s" % (vtag, s["step"], s["kind"])
+                    key = "%s|step=%s|kind=%s%s" % (vtag, s["step"], s["kind"], big)
                 ctx.violation(key, describe(ob, why), files)
             if ob["orphans"]:
                 ctx.violation("orphan|step=%s|kind=%s|stubborn=%d" % (s["step"], s["kind"], s["stubborn"]),
                               describe(ob, "stand-in co-process still alive %.0f s after nano_vm exited (pids %s)" % (GRACE, ob["orphans"])), files)
             if len(samples) < 8 and faulted and ob["fired"] and (len(samples) < 4 or cls.startswith("recovered")):
-                samples.append({"fault": cell(s), "family": s["family"], "second": s["second"], "flavor": ob["flavor"],
-                                "outcome": cls, "rc": ob["rc"], "signal": ob["sig"], "instances": ob["instances"],
+                samples.append({"program": s["prog"], "fault": cell(s), "family": s["family"], "second": s["second"],
+                                "flavor": ob["flavor"], "outcome": cls, "rc": ob["rc"], "signal": ob["sig"],
+                                "instances": ob["instances"],
                                 "stderr_tail": ob["err"].strip().splitlines()[-1:] if ob["err"].strip() else []})
 
         ctx.require(not control_bad, "healthy control did not run normally (harness problem?): %s" % control_bad[:3])
-        ctx.require(not timeouts, "watchdog fired twice on: %s" % timeouts[:5])
-        ctx.require(faulted_n > 0 and len(not_fired) <= 0.05 * faulted_n,
-                    "fault never fired in %d of %d scenarios (e.g. %s)" % (len(not_fired), faulted_n, not_fired[:5]))
-        ctx.require(relaunch_runs >= 3, "fewer than 3 runs in which a second co-process instance was started (%d)" % relaunch_runs)
-        n_cells4 = len(set((c[0], c[1], c[2], c[5]) for c in fired_cells))
+        if not ctx.violations:
+            # "held" needs enough observation; violations already shown by other cases stand on their own
+            # (a hang is inconclusive by itself, BUILDERS.md, and so is a run whose faults mostly never fired)
+            ctx.require(not timeouts, "watchdog fired twice on: %s" % timeouts[:5])
+            ctx.require(faulted_n > 0 and len(not_fired) <= 0.05 * faulted_n,
+                        "fault never fired in %d of %d scenarios (e.g. %s)" % (len(not_fired), faulted_n, not_fired[:5]))
+            ctx.require(relaunch_runs >= 3, "fewer than 3 runs in which a second co-process instance was started (%d)" % relaunch_runs)
+            ctx.require(len(fired_cells) >= 300, "too few distinct cells with an injected fault (%d)" % len(fired_cells))
         return ctx.finish({
             "evaluations": len(obs),
-            "distinct_nontrivial": n_cells4,
-            "rule": "distinct (step, kind, k, flavor) cells whose run was executed AND whose stand-in log shows the "
+            "distinct_nontrivial": len(fired_cells),
+            "rule": "distinct (program, step, kind, k, flavor) cells whose run was executed AND whose stand-in log shows the "
                     "fault-fired record (the fault was really injected); repetitions of a cell (second-instance mode, "
-                    "stubborn variant, jitter seeds) are not counted again",
+                    "stubborn variant, jitter seeds) and the no-fault controls are not counted",
             "exhaustive": True,
             "explanation": "the product steps {pre_ready k=1..3 (before INIT / after its header / after its payload), post_ready, "
                            "on_req k, pre_reply k, mid_reply k; k=1..%d} x 14 kinds x {plain, asan} is enumerated completely in "
                            "both tiers, plus post_reply (death between calls) x 6 process kinds x second instance {healthy, same}, "
-                           "a stubborn (SHUTDOWN/EOF-ignoring) family and no-fault controls; thorough repeats everything under "
-                           "%d jitter seeds of the stand-in" % (K, len(jitters) - 1),
+                           "a stubborn (SHUTDOWN/EOF-ignoring) family, a big-reply family (program B) and no-fault controls; "
+                           "everything is run once without and %d time(s) with a jitter seed in the stand-in" % (K, len(jitters) - 1),
             "scenarios_per_flavor": len(jobs) // len(flavors),
             "faulted_scenarios": faulted_n,
-            "fault_fired_variants": len(fired_cells),
+            "controls_ok": controls_ok,
             "fault_not_fired": not_fired[:20],
             "outcome_classes": classes,
             "outcome_by_step_kind": hist,
@@ -446,6 +546,8 @@ def run(ctx):
             "relaunched_instances": relaunch_instances,
             "orphan_scans": orphan_scans,
             "jitter_seeds": [j for j in jitters if j is not None],
+            "watchdog_cases": timeouts[:20],
+            "controls_not_served_by_stand_in": control_fallback,
             "samples": samples,
         }, assumptions=[
             "the stand-in tools/fake_nano_cop.py is found through PATH exactly like the real nano_cop (execlp in vm_ffi.c); "
@@ -455,4 +557,6 @@ def run(ctx):
             "a leftover is a live, non-zombie process whose /proc/<pid>/environ carries the per-case tag 5 s after the VM exited",
             "mid_reply x message kinds corrupts the payload inside a well-formed frame; the VM cannot notice that at call k, "
             "it must notice the misframed stream at call k+1 (k <= 3 < 4 calls)",
+            "program B's extern exists only in the stand-in (no in-process reference); it is used with faults after READY only, "
+            "where the VM never falls back to an in-process call",
         ])
